@@ -902,7 +902,7 @@ fn respond(line: &str) -> R {
                 })
                 .collect::<Result<Vec<_>, String>>()?;
             let queries = probes
-                .split(';')
+                .split("@@")
                 .filter(|probe| !probe.trim().is_empty())
                 .map(|probe| {
                     let (trait_, self_ty) = probe.split_once(" for ").ok_or("bad probe")?;
